@@ -193,7 +193,17 @@ ASSUMPTIONS_COMMON = [
     "S-callback: user callables return arbitrary values or raise arbitrary Exceptions and do not write pandera state or their argument",
     "S-lib: library calls without a model are opaque (arbitrary result, no effect); listed per run under opaque_calls",
     "S-term: termination not proved",
-    "A-native: pyspark.pandas / modin / dask branches are taken as false",
+    "A-native: pyspark.pandas / modin branches are taken as false; the dask branch is decided by the attribute protocol of the pandas theory "
+    "(hasattr(frame, name) <=> the class defines it or a column / index label is called so)",
+    "S-memo: a functools.lru_cache function called with non-plain arguments either computes or returns the result cached for an EQUAL (==, hash) "
+    "argument - nothing else is known about a hit; with plain arguments (str, int, type, tuples of those) it is run natively",
+    "S-model-artefact: a python TypeError / AttributeError raised by a theory object or interpreter value that lacks a model is UNSUPPORTED (undecided), "
+    "never an exception of the code under verification",
+    "T-text: eval(repr(v)) == v is assumed for None / bool / int / FINITE float / str and lists of those (E1), eval('float(\"' + str(v) + '\")') == v for "
+    "every float (E6): replayed on the real interpreter by the text theory's selftest",
+    "T-polars: pl.when(c).then(a)[.otherwise(b)] is a where c is TRUE, else b / null; map_elements skips nulls; floats are totally ordered with NaN greatest",
+    "T-label-text: the text of a MultiIndex label is ONE function of the label (checked for pandera's own renderer by C11 structural.one_rendering and "
+    "enumerated.text_of_a_label_is_independent_of_the_other_labels)",
     "extraction drops docstrings, annotations, logger.* calls, typing.cast (identity)",
     "python-stdlib models in pyvc/stdlib_models.py and theory models in pyvc/theories are assumed contracts on dependencies",
 ]
